@@ -421,6 +421,12 @@ pub fn link_cores(cores: Vec<CoreUnit>) -> Result<LinkOutput, CompilationError> 
         std::iter::once(name.0.clone()).chain(def.variants.iter().map(|(variant, _)| variant.0.clone()))
     }));
     gensym.reserve(bare_names(genv.type_env.extern_types.keys()));
+    gensym.reserve(
+        genv.value_env
+            .extern_funcs
+            .values()
+            .flat_map(|ext| hir::go_package_spellings(&ext.package_path)),
+    );
     let (mono, monoenv, unbounded) = mono::mono_with_diagnostics(genv.clone(), linked.clone());
     if !unbounded.is_empty() {
         return Err(compile_error(format!(
